@@ -162,7 +162,7 @@ def describe_real(conn_id, msg):
         if isinstance(a, wl.Arg.Int): args.append(('int', a.value))
         elif isinstance(a, wl.Arg.Float): args.append(('fixed', a.value))
         elif isinstance(a, wl.Arg.String): args.append(('str', a.value))
-        elif isinstance(a, wl.Arg.Null): args.append(('nil', None))
+        elif isinstance(a, wl.Arg.Null): args.append(('nil', None if (a.type is None and a.name is None) else ('decoded with a name/interface no line can carry', a.name, a.type)))
         elif isinstance(a, wl.Arg.Object): args.append(('new' if a.is_new else 'obj', (a.obj.type, a.obj.id)))
         elif isinstance(a, wl.Arg.Array): args.append(('array', None))
         elif isinstance(a, wl.Arg.Fd): args.append(('fd', a.value))
@@ -170,8 +170,32 @@ def describe_real(conn_id, msg):
     return {'sent': msg.sent, 'conn': conn_id, 'type': msg.obj.type, 'id': msg.obj.id, 'name': msg.name, 'args': args}
 
 
+HISTORY = []      # every line this process has put through compare() (a decoder that keeps state is only caught with its history)
+
+
+def relevant_history(text):
+    """the earlier lines of this process a replay of `text` should decode first: the last two, and the last one sharing an argument kind keyword"""
+    h = HISTORY[:-1] if HISTORY and HISTORY[-1] == text else HISTORY
+    keep = []
+    for kw in ('nil', 'array', 'fd ', 'new id', '"'):
+        if kw in text:
+            for l in reversed(h):
+                if kw in l:
+                    keep.append(l)
+                    break
+    for l in h[-2:]:
+        keep.append(l)
+    out = []
+    for l in keep:
+        if l not in out:
+            out.append(l)
+    return out
+
+
 def compare(text):
     """-> (ok, explanation).  Decodes `text` with the real parse.message and with the reference."""
+    HISTORY.append(text)
+    del HISTORY[:-200]
     from backends.libwayland_debug_output import parse
     from core import wl
     exp = parse_line(text)
@@ -180,6 +204,12 @@ def compare(text):
         try:
             conn_id, msg = parse.message(text)
             got = describe_real(conn_id, msg)
+            # what the rest of the tool does next with a decoded message (Message.resolve): it labels the argument objects in place.
+            # The next line decoded must not see any of it
+            for k, a in enumerate(msg.args):
+                a.name = 'label%d' % k
+                if isinstance(a, wl.Arg.Null):
+                    a.type = 'wl_earlier_%d' % k
         except RuntimeError as e:
             got = None
         except Exception as e:
